@@ -54,6 +54,10 @@ def compare(ctx, typ, c, tc, obj, case, what):
     ctx.count()          # one evaluation = one linear programme compared with its independent reference
     if ref is None:
         ctx.event("reference_" + status)
+        if status.startswith("undecided"):
+            # the reference solver reported numerical trouble under all three of its algorithms: inconclusive, not a verdict
+            ctx.abort("reference-" + status)
+            return
         ctx.fail("reported-optimum-not-attainable:reference-infeasible:" + typ,
                  "%s: the model reports %.6g but no allocation satisfies the stated constraints (%s)" % (what, obj, status), case)
         return
